@@ -312,19 +312,19 @@ Section Proofs.
       intros H. unfold Server.diff_post.
       destruct (notebook_arguments p f EDiff rq diff_arg_names) eqn:E.
       + simpl. split; [eapply notebook_arguments_err; eauto|reflexivity].
-      + apply notebook_arguments_all in E. destruct E as [E _]. congruence.
+      + apply notebook_arguments_all in E. destruct E as [E _]. simpl in E, H. congruence.
     - (* merge *)
       intros H. unfold Server.merge_post.
       destruct (notebook_arguments p f EMerge rq merge_arg_names) eqn:E.
       + simpl. split; [eapply notebook_arguments_err; eauto|reflexivity].
-      + apply notebook_arguments_all in E. destruct E as [E _]. congruence.
+      + apply notebook_arguments_all in E. destruct E as [E _]. simpl in E, H. congruence.
     - (* store *)
       intros H. rewrite store_post_nostop. split; [|reflexivity].
       unfold Server.store_post.
-      destruct (out_key p); simpl; [|err_status].
+      destruct (out_key p) as [k0|]; simpl; [|err_status].
       destruct (body_arg (rq_body rq) k_merged) as [m|]; simpl; [|err_status].
       destruct (nb_serialize m); [discriminate|].
-      destruct o; [destruct (open_w text empty_text f l)|]; simpl; err_status.
+      destruct o; [destruct (open_w text empty_text f k0)|]; simpl; err_status.
     - (* close *)
       intros H. unfold Server.close_post. destruct (p_closable p); simpl; [|split; [err_status|reflexivity]].
       destruct (match rq_hdr_exit rq with Some s => py_int s | None => Some 1%Z end); [|simpl; split; [err_status|reflexivity]].
@@ -431,7 +431,7 @@ Section Proofs.
   Proof.
     intros R M. unfold Server.malformed, handle_gen. rewrite R, M. simpl. unfold Server.diff_post. intros H.
     destruct (notebook_arguments p f EDiff rq diff_arg_names) as [c|xs] eqn:E.
-    - apply notebook_arguments_some in E. congruence.
+    - apply notebook_arguments_some in E. simpl in E, H. congruence.
     - apply notebook_arguments_all in E. destruct E as [_ E].
       unfold diff_arg_names in E. inversion E as [|n1 b ns1 xs1 Hb E1]; subst.
       inversion E1 as [|n2 r ns2 xs2 Hr E2]; subst. inversion E2; subst.
@@ -521,7 +521,9 @@ Section Proofs.
         * intros A B; inversion A; inversion B; subst. apply handle_stateless_gen.
         * intros A B. specialize (IH i oc rq A B).
           rewrite IH. destruct i as [|i]; simpl; [reflexivity|].
-          destruct (nth_error os i); reflexivity.
+          destruct (nth_error os i) eqn:En; [reflexivity|].
+          exfalso. apply nth_error_None in En.
+          assert (X : nth_error os (S i) = None) by (apply nth_error_None; lia). congruence.
   Qed.
 
 End Proofs.
